@@ -7,7 +7,7 @@ import (
 )
 
 // C13 — concurrent use of one server is free of data races.
-// The C11 and C12 scenario bodies (without Close) are explored under the controlled scheduler in a -race build:
+// The C01, C11 and C12 scenario bodies (without Close) are explored under the controlled scheduler in a -race build:
 // the scheduler's hand-off uses raw system calls in //go:norace code and is invisible to the detector, so in each
 // enumerated schedule the detector's happens-before relation contains olareg's own synchronisation only.
 
@@ -16,7 +16,7 @@ func init() {
 		ID:    "C13",
 		Level: "model_checking",
 		Race:  true,
-		Rule: "the scenario bodies of C11 and C12 without Close (handlers, collection ticker, cache timers, eviction goroutines, both stores) are explored over all interleavings up to preemption bound 1 (quick) / 2 (thorough) with the binary built with -race; the hand-off between managed threads is a pipe driven by raw system calls in //go:norace code, so the detector only sees olareg's own synchronisation and reports every conflicting pair that is unordered in the enumerated schedule; " +
+		Rule: "the scenario bodies of C01, C11 and C12 without Close (requests on one upload session, handlers, collection ticker, cache timers, eviction goroutines, both stores) are explored over all interleavings up to preemption bound 1 (quick) / 2 (thorough) with the binary built with -race; the hand-off between managed threads is a pipe driven by raw system calls in //go:norace code, so the detector only sees olareg's own synchronisation and reports every conflicting pair that is unordered in the enumerated schedule; " +
 			"reports are captured per execution and de-duplicated by the pair of access sites; non-trivial = distinct outcomes",
 		Assume: []string{"the detector keeps 4 shadow cells per word and a bounded history (runs are short)", "file reads and writes through package os synchronise through the detector's global ioSync object, as in any Go program",
 			"no happens-before prefix cache in the race build (scheduler state must stay in //go:norace code without maps)"},
@@ -27,6 +27,11 @@ func init() {
 			}
 			for _, sc := range c11Scenarios(tier) {
 				sc.Linearizable = false
+				sc.Extra = nil
+				out = append(out, sc)
+			}
+			// requests racing on one upload session (the C01 scenarios)
+			for _, sc := range c01Scenarios(tier) {
 				sc.Extra = nil
 				out = append(out, sc)
 			}
